@@ -59,6 +59,10 @@ AutoVowelInv == o.vowel /\ ~o.reph /\ ~o.chandra =>
         /\ i > 1
         /\ s.buf[i - 1] \notin IndepVowels /\ s.buf[i - 1] \notin Kars /\ s.buf[i - 1] \notin Punct
 
-Emit == (Len(h) = Depth \/ s.crash) =>
+\* "full": every maximal history.  "reph": every history that ends with the reph key (each reph event of
+\* each history is then replayed exactly once, as the last step of its prefix).
+EmitWhen == IF Alphabet = "full" THEN Len(h) = Depth \/ s.crash
+            ELSE h # <<>> /\ h[Len(h)].op = "key" /\ h[Len(h)].val = REPH
+Emit == EmitWhen =>
            PrintT(<<"REPLAY", ToJson([mc |-> "MC_Fixed", o |-> o, steps |-> h])>>)
 =============================================================================
